@@ -1,7 +1,7 @@
 """C40  Disassembly and analysis agree on instruction offsets (DESIGN §7 C40)."""
 from contracts import cfgsuite as S, cfgworld as W
 from pyvc.core import And, Eq, Implies, Ite, Not, Or
-from pyvc.unit import unit
+from pyvc.unit import bare, unit
 
 ANA, DEX = S.ANA, S.DEX
 META = {
@@ -40,11 +40,17 @@ class _I:
 def _code_of(dex, get_instructions):
     """a DalvikCode whose DCode delivers the given instructions: the real classes (so helper methods a refactoring adds to them
     exist), not initialised from a file; only get_instructions is the contract's"""
-    bc = object.__new__(dex.DCode)
-    bc.get_instructions = get_instructions
-    dc = object.__new__(dex.DalvikCode)
+    bc = _dcode(dex)
+    if get_instructions is not None:
+        bc.get_instructions = get_instructions
+    dc = bare(dex.DalvikCode)
     dc.code = bc
     return dc
+
+
+def _dcode(dex):
+    """a DCode made by its real constructor (class manager None, empty code): whatever state the constructor sets up is there"""
+    return dex.DCode(None, 0, 0, b"")
 
 
 def _three(U):
@@ -55,8 +61,9 @@ def _three(U):
 def instruction_offsets(U):
     dex = U.mod(DEX)
     ins = _three(U)
-    em = object.__new__(dex.EncodedMethod)
-    em.code = _code_of(dex, lambda: iter(ins))
+    em = bare(dex.EncodedMethod)
+    em.code = _code_of(dex, None)
+    em.code.code.set_instructions(ins)
     em.get_code = lambda: em.code
     o = U.call(lambda: list(em.get_instructions_idx()))
     U.ensures("does not raise", o.ok, exc=repr(o.exc))
@@ -71,8 +78,8 @@ def instruction_offsets(U):
 def lookup_by_offset(U):
     dex = U.mod(DEX)
     ins = _three(U)
-    dc = object.__new__(dex.DCode)
-    dc.cached_instructions = ins
+    dc = _dcode(dex)
+    dc.set_instructions(ins)
     off = U.int("off", -4, 4000)
     o = U.call(dc.get_ins_off, off)
     p = U.call(dc.off_to_pos, off)
@@ -82,6 +89,31 @@ def lookup_by_offset(U):
                                                                                                 o.value is None)))))
     U.ensures("off_to_pos: its position, else -1",
               And(p.ok, p.value == Ite(off == 0, 0, Ite(off == l0, 1, Ite(off == l0 + l1, 2, -1)))))
+
+
+@unit("C40", covers=[(DEX, "DCode.get_ins_off"), (DEX, "DCode.off_to_pos"), (DEX, "DCode.set_instructions"), (DEX, "DCode.get_instructions")],
+      samples=100)
+def lookup_after_set_instructions(U):
+    """the instructions of a method can be replaced (EncodedMethod.set_instructions): lookups answer for the instructions the code
+    has NOW -- whatever was looked up before"""
+    dex = U.mod(DEX)
+    dc = _dcode(dex)
+    first = [_I(U.int("a%d" % i, 1, 600) * 2) for i in range(2)]
+    dc.set_instructions(first)
+    off0 = U.int("off0", -2, 2500)
+    U.call(dc.get_ins_off, off0)
+    U.call(dc.off_to_pos, off0)
+    ins = _three(U)
+    dc.set_instructions(ins)
+    off = U.int("off", -4, 4000)
+    o = U.call(dc.get_ins_off, off)
+    p = U.call(dc.off_to_pos, off)
+    l0, l1 = ins[0].n, ins[1].n
+    U.ensures("get_ins_off after the instructions were replaced: the instruction now at exactly that offset, else None",
+              And(o.ok, Ite(off == 0, o.value is ins[0], Ite(off == l0, o.value is ins[1], Ite(off == l0 + l1, o.value is ins[2],
+                                                                                                o.value is None)))), exc=repr(o.exc))
+    U.ensures("off_to_pos after the instructions were replaced: its position now, else -1",
+              And(p.ok, p.value == Ite(off == 0, 0, Ite(off == l0, 1, Ite(off == l0 + l1, 2, -1)))), exc=repr(p.exc))
 
 
 class _BCQ:
@@ -288,8 +320,11 @@ def lookup_by_offset_unbounded(U, fn, mode):
     dex = U.mod(DEX)
     world = _SeqWorld(U)
     seq = world.seq()
-    dc = object.__new__(dex.DCode)
-    dc.get_instructions = lambda: seq if U.mode == "sym" else iter(seq)        # callee contract: yields the instructions in order
+    dc = _dcode(dex)
+    if U.mode == "sym":
+        dc.get_instructions = lambda: seq        # callee contract: yields the instructions in order (ghost sequence of any length)
+    else:
+        dc.set_instructions(list(seq))           # concrete run: the real accessor over the real cache
     if U.mode == "sym":
         U.substitutions.append("DCode.get_instructions := contract (abstract instruction sequence of symbolic length)")
     wit = None
@@ -338,8 +373,10 @@ def instruction_offsets_unbounded(U):
     dex = U.mod(DEX)
     world = _SeqWorld(U)
     seq = world.seq()
-    em = object.__new__(dex.EncodedMethod)
-    em.code = _code_of(dex, lambda: seq if U.mode == "sym" else iter(seq))
+    em = bare(dex.EncodedMethod)
+    em.code = _code_of(dex, (lambda: seq) if U.mode == "sym" else None)
+    if U.mode != "sym":
+        em.code.code.set_instructions(list(seq))
     em.get_code = lambda: em.code
     IDX_LOOP.G = {"world": world, "U": U}
     if U.mode == "sym":
